@@ -35,6 +35,8 @@ func verifC14xLit() byte {
 
 // verifC14xKinds: number of component kinds available at a given level.
 //   0 L   1 *   2 **   3 ?   4 L*   5 *L   6 [LM]   7 LM
+var verifC14xKindNames = []string{"L", "*", "**", "?", "L*", "*L", "[LM]", "LM"}
+
 func verifC14xComponent(kind int) (verifC14xComp, []byte) {
 	switch kind {
 	case 0:
@@ -95,22 +97,29 @@ func verifC14xMatchComp(t []verifC14xTok, s string) bool {
 }
 
 // verifC14xMatchWhole: pattern components against path components; a "**"
-// component spans zero or more whole directory levels.
-func verifC14xMatchWhole(pc []verifC14xComp, nc []string) bool {
+// component spans zero or more whole directory levels.  trailMin is the
+// minimal number of levels a "**" in LAST position (after at least one other
+// component) has to span: whether "x/**" also matches "x" itself is not fixed
+// by the property, so the oracle brackets the answer between trailMin = 1
+// (must match) and trailMin = 0 (may match).
+func verifC14xMatchWhole(pc []verifC14xComp, nc []string, trailMin int, first bool) bool {
 	if len(pc) == 0 {
 		return len(nc) == 0
 	}
 	if pc[0].double {
+		if len(pc) == 1 && !first {
+			return len(nc) >= trailMin
+		}
 		r := false
 		for k := 0; k <= len(nc); k++ {
-			r = vOr(r, verifC14xMatchWhole(pc[1:], nc[k:]))
+			r = vOr(r, verifC14xMatchWhole(pc[1:], nc[k:], trailMin, false))
 		}
 		return r
 	}
 	if len(nc) == 0 {
 		return false
 	}
-	return vAnd(verifC14xMatchComp(pc[0].toks, nc[0]), verifC14xMatchWhole(pc[1:], nc[1:]))
+	return vAnd(verifC14xMatchComp(pc[0].toks, nc[0]), verifC14xMatchWhole(pc[1:], nc[1:], trailMin, false))
 }
 
 func VerifC14MatchShapes() {
@@ -124,20 +133,27 @@ func VerifC14MatchShapes() {
 	vLabel("")
 	var comps []verifC14xComp
 	var text []byte
+	shape := ""
 	if rooted {
 		text = append(text, '/')
+		shape = "/"
 	}
 	for k := 0; k < ncomp; k++ {
-		c, b := verifC14xComponent(vChoose(nkinds))
+		kind := vChoose(nkinds)
+		c, b := verifC14xComponent(kind)
 		comps = append(comps, c)
 		if k > 0 {
 			text = append(text, '/')
+			shape += "/"
 		}
 		text = append(text, b...)
+		shape += verifC14xKindNames[kind]
 	}
 	if trailing {
 		text = append(text, '/')
+		shape += "/"
 	}
+	vNote("pattern shape=" + shape + " (L, M: the symbolic literals, in order)")
 
 	ip, err := newIgnorePattern(string(text))
 	vAssert(err == nil && ip != nil, "patterns of the restricted grammar are accepted")
@@ -155,22 +171,25 @@ func VerifC14MatchShapes() {
 	got := ip.matches(path, directory)
 
 	// ---- specification, from the generated structure
-	var want bool
+	var must, may bool
 	if rooted || ncomp > 1 {
 		// leading slash or slash-containing: anchored at the root
-		want = verifC14xMatchWhole(comps, nc)
+		must = verifC14xMatchWhole(comps, nc, 1, true)
+		may = verifC14xMatchWhole(comps, nc, 0, true)
 		vCover("anchored")
 		if len(nc) > ncomp {
 			vCover("anchored, path deeper than the pattern")
 		}
 	} else {
 		// no slash: the final component anywhere (a lone "**" spans everything)
-		want = vOr(verifC14xMatchWhole(comps, nc[len(nc)-1:]), verifC14xMatchWhole(comps, nc))
+		must = vOr(verifC14xMatchWhole(comps, nc[len(nc)-1:], 1, true), verifC14xMatchWhole(comps, nc, 1, true))
+		may = must
 		vCover("leaf")
 	}
 	if trailing {
 		// trailing slash: only directories
-		want = vAnd(want, directory)
+		must = vAnd(must, directory)
+		may = vAnd(may, directory)
 		vCover("directory-only")
 	}
 	for k := range comps {
@@ -190,5 +209,5 @@ func VerifC14MatchShapes() {
 	} else {
 		vCover("no-match")
 	}
-	vAssert(got == want, "pattern matches exactly as the documented syntax says (anchoring, leaf matching, directory-only, '**' spans levels)")
+	vAssert(vAnd(vOr(!must, got), vOr(!got, may)), "pattern matches exactly as the documented syntax says (anchoring, leaf matching, directory-only, '**' spans levels)")
 }
